@@ -5,6 +5,14 @@ laws SuccAddsOne, RegroupAgrees, CanonSame, Extremes checked by TLC).
 Binding: every state visited by TLC is exported and driven through the real
 DEC2x/x2DEC/x2y functions (library call and compiled formula); the
 definitions' values are the oracle.
+
+"Anything outside the range or alphabet yields #NUM!/#VALUE! rather than a
+value or an exception" is driven per vector with: digit strings of the base
+with one illegal character and with 11 characters (x2DEC), the decimal numeral
+of the value as text with one illegal character (DEC2x), and a places argument
+that is text with an illegal character or an error value (DEC2x, x2y; an error
+value may also be handed on as it is).  Places > 10 is not judged (outside the
+quantifier "places 1..10", not documented by Excel).
 """
 import json
 import os
@@ -19,7 +27,15 @@ NAME = {2: 'bin', 8: 'oct', 16: 'hex'}
 RANGE = {2: 512, 8: 2 ** 29, 16: 2 ** 39}
 ILLEGAL = {2: ['2', 'G', ' ', '_', '+', 'x', '-', '.'],
            8: ['8', 'G', ' ', '_', '+', 'x', '-', '.'],
-           16: ['G', ' ', '_', '+', 'x', '-', '.', 'g']}
+           16: ['G', ' ', '_', '+', 'x', '-', '.', 'g'],
+           # the decimal argument of DEC2x and the places argument, given as
+           # text: characters that no Excel reading of a number contains
+           # (blanks, signs, '.', ',', 'E', '%', '$', '/', ':' can all be part
+           # of a text that Excel reads as a number, they are not used)
+           10: ['_', 'G', 'x', '!', '~', '#']}
+# error values as an argument: the error itself (Excel hands it on) or one of
+# the two errors the statement names, never a value or an exception
+ARG_ERRORS = ['#DIV/0!', '#N/A', '#NAME?', '#REF!', '#NULL!', '#NUM!', '#VALUE!']
 
 
 def dstr(digs):
@@ -147,6 +163,36 @@ def run(tier, seed):
                 expect_error(f'{nm}2dec illegal', call(x2dec, s_bad),
                              dict(case, text=s_bad))
         expect_error(f'{nm}2dec 11 chars', call(x2dec, '0' + full), case, (NUM_ERROR,))
+        # the decimal numeral of n, as text, with one illegal character
+        dec = str(n)
+        pos = rnd.randrange(len(dec) + 1)
+        bad = rnd.choice(ILLEGAL[10])
+        bad_decs = [dec[:pos] + bad + dec[pos:]]
+        if len(dec) > 1:
+            pos = rnd.randrange(1, len(dec))      # between two characters
+            bad_decs.append(dec[:pos] + '_' + dec[pos:])
+            bad_decs.append(dec[:pos] + bad + dec[pos + 1:])
+        for s_bad in bad_decs:
+            expect_error(f'dec2{nm} illegal', call(dec2x, s_bad),
+                         dict(case, text=s_bad))
+        # places that is not a number 1..10: text with an illegal character,
+        # an error value
+        digits = str(rnd.randrange(1, 11))
+        pos = rnd.randrange(len(digits) + 1)
+        for p_bad in (digits[:pos] + bad + digits[pos:], '1_0', bad * 3):
+            expect_error(f'dec2{nm} places illegal', call(dec2x, n, p_bad),
+                         dict(case, places=p_bad))
+        err = rnd.choice(ARG_ERRORS)
+        expect_error(f'dec2{nm} places error', call(dec2x, n, err),
+                     dict(case, places=err), (err, NUM_ERROR, VALUE_ERROR))
+        ob = rnd.choice([o for o in (2, 8, 16) if o != base])
+        if -RANGE[ob] <= n < RANGE[ob]:
+            f = getattr(eng, f'{nm}2{NAME[ob]}')
+            p_bad = rnd.choice((digits[:pos] + bad + digits[pos:], '1_0', bad * 3))
+            expect_error(f'{nm}2{NAME[ob]} places illegal', call(f, canon, p_bad),
+                         dict(case, places=p_bad))
+            expect_error(f'{nm}2{NAME[ob]} places error', call(f, canon, err),
+                         dict(case, places=err), (err, NUM_ERROR, VALUE_ERROR))
         # through compiled formulas
         if formula_budget > 0 and (rnd.random() < 0.1 or n in (
                 -RANGE[base], RANGE[base] - 1, -1, 0)):
@@ -158,6 +204,22 @@ def run(tier, seed):
                 xl.evalf, f'=DEC2{fn}(A1)', {'A1': n}), canon, case)
             expect(f'formula roundtrip', call(
                 xl.evalf, f'={fn}2DEC(DEC2{fn}(A1))', {'A1': n}), n, case)
+            # illegal text / error values reach the functions through cells
+            # and through literals and sub-expressions of the formula
+            s_bad, p_bad = bad_decs[-1], digits[:pos] + bad + digits[pos:]
+            expect_error(f'formula DEC2{fn} illegal', call(
+                xl.evalf, f'=DEC2{fn}(A1)', {'A1': s_bad}), dict(case, text=s_bad))
+            expect_error(f'formula DEC2{fn} illegal literal', call(
+                xl.evalf, f'=DEC2{fn}("{s_bad}")', {}), dict(case, text=s_bad))
+            expect_error(f'formula DEC2{fn} places illegal', call(
+                xl.evalf, f'=DEC2{fn}(A1,B1)', {'A1': n, 'B1': p_bad}),
+                dict(case, places=p_bad))
+            expect_error(f'formula DEC2{fn} places illegal literal', call(
+                xl.evalf, f'=DEC2{fn}(A1,"{p_bad}")', {'A1': n}),
+                dict(case, places=p_bad))
+            expect_error(f'formula DEC2{fn} places error', call(
+                xl.evalf, f'=DEC2{fn}(A1,1/0)', {'A1': n}),
+                dict(case, places='1/0'), ('#DIV/0!', NUM_ERROR, VALUE_ERROR))
     # outside the range
     for base in (2, 8, 16):
         dec2x = getattr(eng, 'dec2' + NAME[base])
@@ -169,7 +231,11 @@ def run(tier, seed):
                    rule='one case = (function, base, digit string / value); '
                         'non-trivial = distinct (function, input) pair; '
                         'binary range exhaustive, octal/hex: 128-step odometer '
-                        'walks across every boundary and patterned seeds')
+                        'walks across every boundary and patterned seeds',
+                   illegal_characters={str(k): c for k, c in ILLEGAL.items()},
+                   unconstrained=['places > 10', 'text that Excel reads as a number '
+                                  '(blanks, signs, scientific notation) as the '
+                                  'decimal argument'])
     v.traces = len(vectors)
     v.assumptions = ['TLC evaluates Radix.tla definitions correctly',
                      'decimal value strings compared through Python int()']
